@@ -512,66 +512,293 @@ def explore(base, bound, limit, deadline=None):
     return cases, ex.truncated
 
 
-# ----------------------------------------------------------------------------- divide_outputs (oracle only)
-def run_divide(case, strategy):
-    """a source of dicts -> divide_outputs -> 2–3 mailboxes with 1–2 subscribers each (thorough tier)"""
-    nmb, nmsg, lazy, cap = case["nmb"], case["nmsg"], bool(case["lazy"]), case["cap"]
+# ----------------------------------------------------------------------------- divide_outputs
+# case: cap, lazy, outs = [[drive mask, free(0/1)], ...], prog = ["p10+p20", "x", ...], workers, kills = ["0u", "1d"], sched
+def div_op_line(case):
+    cap = "inf" if case["cap"] is None else str(case["cap"])
+    outs = ";".join(d + ("f" if f else "") for d, f in case["outs"])
+    prog = ",".join(case["prog"]) or "-"
+    workers = ";".join((".".join(map(str, w)) or "_") for w in case["workers"]) or "-"
+    kills = ",".join(case["kills"]) or "-"
+    sched = ",".join(case.get("sched") or []) or "-"
+    return f"c05.div {gate_rule()} {cap} {case['lazy']} {outs} {prog} {workers} {kills} {sched}"
+
+
+def dthread_key(name):
+    if name == "D":
+        return (0, 0, 0)
+    if name[0] == "R":
+        k, i = name[1:].split(".")
+        return (1, int(k), int(i))
+    return ("DRWK".index(name[0]), int(name[1:]), 0)
+
+
+def div_classify(case):
+    items = case["prog"]
+    nout = len(case["outs"])
+    comps = [t.split("+") for t in items if t != "x"]
+    if any(len(c) != nout for c in comps) or (case["cap"] is not None and case["cap"] < 1):
+        return "malformed"
+    futs = [parse_item(c)[2] for cs in comps for c in cs if c[0] == "f"]
+    assigned = [f for w in case["workers"] for f in w]
+    if sorted(futs) != sorted(set(futs)) or any(f not in assigned for f in futs):
+        return "malformed"
+    if case["lazy"]:
+        # every gated output needs a driving subscriber; a flow_freely output must not be the only demand
+        for d, f in case["outs"]:
+            if not f and "1" not in d:
+                return "malformed"
+    if any(not d for d, _ in case["outs"]):
+        return "malformed"
+    if case["kills"] or "x" in items:
+        return "kill"
+    return "clean"
+
+
+def div_expected(case, k):
+    out = []
+    for t in case["prog"]:
+        if t == "x":
+            break
+        cs = t.split("+")
+        if k < len(cs):
+            out.append(parse_item(cs[k])[3])
+    return out
+
+
+def run_div_real(case, strategy):
+    """the real divide_outputs feeding real mailboxes under `strategy`; returns (canonical line, info)"""
+    cap, lazy = case["cap"], bool(case["lazy"])
+    nout = len(case["outs"])
+    dicts = [None if t == "x" else [parse_item(c) for c in t.split("+")] for t in case["prog"]]
+    snaps, state = [], {}
     sc = S.Sched(strategy, prime=True)
-    maxlen = [0]
+    names = [f"o{k}" for k in range(nout)]
+
+    def mb_snap(mb):
+        d = lambda xs: ".".join(xs) or "_"  # noqa: E731
+        return "|".join([d([str(int(n)) for n in sorted(n for n, _ in mb._mailbox)]),
+                         d([str(int(x)) for x in mb._subscribers_have_read]),
+                         d(["n" if w is None else str(int(w)) for w in mb._subscriber_waiting_for]),
+                         f"{int(mb.closed)}{int(mb.killed)}{int(mb.force_killed)}", str(mb._n_sent)])
+
+    def snapshot():
+        en = sorted((t.name for t in sc.runnable()), key=dthread_key)
+        return "/".join(mb_snap(mbs[d]) for d in names) + "|" + (",".join(en) or "_")
+
+    def pcs():
+        out = []
+        for t in sorted(sc.tasks, key=lambda t: dthread_key(t.name)):
+            out.append(f"{t.name}:" + ("run" if t.state != "done" else "done" if t.exc is None else f"dead({err_name(t.exc)})"))
+        return ",".join(out)
+
+    def freeze(status):
+        state.update(status=status, pcs=pcs(),
+                     got="/".join((".".join(map(str, got[(k, i)])) or "_") for k in range(nout) for i in range(len(case["outs"][k][0]))) or "-")
+
+    sc.on_step = lambda s_, t: snaps.append(snapshot())
+    sc.on_deadlock = lambda s_: freeze("deadlock")
     with sc.patch(mbm):
-        names = [f"o{i}" for i in range(nmb)]
         mbs = {}
-        got = {}
-        for i, d in enumerate(names):
-            m = strax.Mailbox(name=d, max_messages=cap, lazy=lazy, timeout=60)
-            m.max_messages = cap
+        for d in names:
+            m = strax.Mailbox(name=d, max_messages=(cap if cap is not None else 1), lazy=lazy, timeout=60)
+            m.max_messages = float("inf") if cap is None else cap
             mbs[d] = m
+        futs, fvals = {}, {}
+        for dct in dicts:
+            for it in dct or []:
+                if it[1] == "f":
+                    futs[it[2]] = S.SFuture(sc)
+                    fvals[it[2]] = it[3]
+        got = {}
 
         def src():
-            for k in range(nmsg):
+            for dct in dicts:
                 sc.yield_point("fetch")
-                yield {d: 100 * i + k for i, d in enumerate(names)}
+                if dct is None:
+                    raise SourceFailed("source failed")
+                # a dict with fewer components than outputs -> KeyError in `result[d]`
+                yield {names[k]: (futs[it[2]] if it[1] == "f" else it[3]) for k, it in enumerate(dct)}
             sc.yield_point("fetch")
 
         def reader(source, key):
             for x in source:
-                got[key].append(x)
+                got[key].append(int(x))
 
+        def worker(ids):
+            for fid in ids:
+                sc.yield_point("work")
+                if fid in futs:
+                    futs[fid].set_result(fvals[fid])
+
+        free = tuple(names[k] for k, (_, f) in enumerate(case["outs"]) if f)
         ths = [sc.threading.Thread(target=mbm.divide_outputs, name="D",
-                                   kwargs=dict(source=src(), mailboxes=mbs, lazy=lazy, flow_freely=tuple(case["free"])))]
-        for i, d in enumerate(names):
-            for r in range(case["readers"][i]):
-                key = f"{d}.{r}"
-                got[key] = []
-                # a reader of a flow_freely output never drives
-                mbs[d].add_reader(reader, name=f"R{i}{r}", can_drive=(d not in case["free"]) and r == 0, key=key)
-        sc.on_step = lambda s_, t: maxlen.__setitem__(0, max(maxlen[0], max(len(m._mailbox) for m in mbs.values())))
+                                   kwargs=dict(source=src(), mailboxes=mbs, lazy=lazy, flow_freely=free, outputs=list(names)))]
+        for k, (drive, _) in enumerate(case["outs"]):
+            for i, ch in enumerate(drive):
+                got[(k, i)] = []
+                mbs[names[k]].add_reader(reader, name=f"R{k}.{i}", can_drive=(ch == "1"), key=(k, i))
+        for j, ids in enumerate(case["workers"]):
+            ths.append(sc.threading.Thread(target=worker, name=f"W{j}", args=(list(ids),)))
+        for q, kl in enumerate(case["kills"]):
+            ths.append(sc.threading.Thread(target=mbs[names[int(kl[:-1])]].kill, name=f"K{q}",
+                                           kwargs=dict(upstream=(kl[-1] == "u"), reason=("HarnessKill", None, None))))
         for t in ths:
             t.start()
-        for m in mbs.values():
-            m.start()
+        for d in names:
+            mbs[d].start()
+        snaps.append(snapshot())
         sc.run()
+        if not sc.deadlocks:
+            freeze("final")
     sc.join_real()
-    exc = {t.name: err_name(t.exc) for t in sc.tasks if t.exc is not None}
-    return f"ok dl={int(bool(sc.deadlocks))} max={maxlen[0]} exc={exc or '-'} got=" + ";".join(
-        f"{k}:{'.'.join(map(str, v))}" for k, v in sorted(got.items())), sc.trace
+    line = f"ok {';'.join(snaps)} end={state['status']} got={state['got']} pcs={state['pcs']}"
+    return line, dict(trace=list(sc.trace))
 
 
-def oracle_divide(case, out):
-    f = dict(x.split("=", 1) for x in out[3:].split(" "))
-    if f["dl"] != "0":
-        return "deadlock"
-    if int(f["max"]) > case["cap"]:
-        return f"buffered {f['max']} > capacity {case['cap']}"
-    if f["exc"] != "-":
-        return f"threads died: {f['exc']}"
-    for part in f["got"].split(";"):
-        k, v = part.split(":")
-        i = int(k[1:k.index(".")])
-        exp = ".".join(str(100 * i + n) for n in range(case["nmsg"]))
-        if v != exp:
-            return f"reader {k} received {v}, expected {exp}"
+def div_execute(case):
+    strat = S.ReplayStrategy(case["sched"]) if case.get("sched") is not None else make_strategy(case["strat"])
+    line, info = run_div_real(case, strat)
+    if getattr(strat, "diverged_at", None) is not None:
+        line += f" replay-diverged@{strat.diverged_at}"
+    case["sched"] = info["trace"]
+    return line
+
+
+def div_oracle(case, out):
+    """`divide_delivery` on the real run: every subscriber of output k gets exactly component k of every dict, in
+    order; capacity per mailbox; no deadlock; all threads end"""
+    if not out.startswith("ok "):
+        return f"adapter answered {out[:80]}"
+    body, end, gotf, pcsf = out[3:].split(" ")[:4]
+    extra = out.split(" ")[5:]
+    kind = div_classify(case)
+    cap = case["cap"]
+    nout = len(case["outs"])
+    if cap is not None:
+        for step, snap in enumerate(body.split(";")):
+            for k, part in enumerate(snap.split("/")[:nout]):
+                heap = part.split("|")[0]
+                n = 0 if heap == "_" else len(heap.split("."))
+                if n > cap:
+                    return f"step {step}: output {k} buffers {n} > max_messages = {cap}"
+    if kind == "malformed":
+        return None
+    gots = [] if gotf[4:] == "-" else [([] if g == "_" else [int(x) for x in g.split(".")]) for g in gotf[4:].split("/")]
+    keys = [(k, i) for k in range(nout) for i in range(len(case["outs"][k][0]))]
+    for (k, i), g in zip(keys, gots):
+        exp = div_expected(case, k)
+        if g != exp[:len(g)]:
+            return f"subscriber {i} of output {k} received {g}, not a prefix of {exp}"
+    end = end[4:]
+    pcs = dict(p.split(":") for p in pcsf[4:].split(","))
+    if end == "deadlock":
+        return f"deadlock: no thread runnable, unfinished: {[p for p, v in pcs.items() if v == 'run']}"
+    if extra:
+        return f"after the run: {' '.join(extra)}"
+    if kind == "clean":
+        for (k, i), g in zip(keys, gots):
+            if g != div_expected(case, k):
+                return f"subscriber {i} of output {k} received {g}, expected exactly {div_expected(case, k)}"
+        bad = {p: v for p, v in pcs.items() if v != "done"}
+        if bad:
+            return f"threads did not end normally: {bad}"
     return None
+
+
+def div_random_config(rng, kind="clean"):
+    nout = rng.randint(2, 3)
+    nmsg = rng.choice([0, 1, 2, 2, 3])
+    lazy = rng.random() < 0.5
+    cap = rng.choice([1, 2, 3])
+    outs = []
+    for k in range(nout):
+        nsub = rng.randint(1, 2)
+        drive = "".join(rng.choice("01") for _ in range(nsub))
+        free = 0
+        if lazy:
+            if k == nout - 1 and rng.random() < 0.3:
+                free = 1                       # a flow_freely output: its readers do not drive
+                drive = "0" * nsub
+            elif "1" not in drive:
+                drive = "1" + drive[1:]
+        outs.append([drive, free])
+    use_fut = rng.random() < 0.3
+    prog, fids = [], []
+    for n in range(nmsg):
+        comps = []
+        for k in range(nout):
+            v = 100 * (k + 1) + 10 * n + rng.randint(0, 9)
+            if use_fut and rng.random() < 0.4:
+                comps.append(f"f{len(fids)}:{v}")
+                fids.append(len(fids))
+            else:
+                comps.append(f"p{v}")
+        prog.append("+".join(comps))
+    workers = []
+    if fids:
+        nw = rng.randint(1, 2)
+        workers = [[] for _ in range(nw)]
+        order = fids[:]
+        rng.shuffle(order)
+        for f in order:
+            workers[rng.randrange(nw)].append(f)
+    kills = []
+    if kind == "kill":
+        r = rng.random()
+        if r < 0.5:
+            kills = [f"{rng.randrange(nout)}{rng.choice('ud')}" for _ in range(rng.randint(1, 2))]
+        elif r < 0.8:
+            prog.insert(rng.randint(0, len(prog)), "x")
+        else:
+            kills = [f"{rng.randrange(nout)}{rng.choice('ud')}"]
+            prog.insert(rng.randint(0, len(prog)), "x")
+    if kind == "malformed" and prog:
+        j = rng.randrange(len(prog))
+        if prog[j] != "x":
+            prog[j] = "+".join(prog[j].split("+")[:-1])      # a dict without its last output -> KeyError
+    return dict(cap=cap, lazy=int(lazy), outs=outs, prog=prog, workers=workers, kills=kills)
+
+
+def div_small_configs(quick):
+    two = [["1", 0], ["1", 0]]
+    out = [
+        (dict(cap=1, lazy=0, outs=two, prog=["p10+p20"], workers=[], kills=[]), 2),
+        (dict(cap=1, lazy=1, outs=two, prog=["p10+p20"], workers=[], kills=[]), 2),
+        (dict(cap=1, lazy=1, outs=[["1", 0], ["0", 1]], prog=["p10+p20"], workers=[], kills=[]), 1 if quick else 2),
+        (dict(cap=1, lazy=0, outs=two, prog=["p10+p20", "x"], workers=[], kills=[]), 1 if quick else 2),
+    ]
+    if not quick:
+        out += [
+            (dict(cap=1, lazy=0, outs=two, prog=["p10+p20"], workers=[], kills=["1u"]), 1),
+            (dict(cap=1, lazy=0, outs=two, prog=["f0:10+p20"], workers=[[0]], kills=[]), 1),
+            (dict(cap=1, lazy=0, outs=two, prog=["p10+p20", "p11+p21"], workers=[], kills=[]), 2),
+            (dict(cap=1, lazy=1, outs=two, prog=["p10+p20", "p11+p21"], workers=[], kills=[]), 2),
+            (dict(cap=2, lazy=1, outs=[["10", 0], ["1", 0]], prog=["p10+p20"], workers=[], kills=[]), 2),
+        ]
+    return out
+
+
+def div_explore(base, bound, limit, deadline=None):
+    ex = S.Explorer(bound=bound, limit=limit)
+    cases = []
+    while ex.more():
+        if deadline is not None and time.time() > deadline and len(cases) >= 100:
+            ex.truncated = True
+            break
+        c = dict(base)
+        line, info = run_div_real(c, ex.strategy())
+        ex.finish()
+        c["sched"] = info["trace"]
+        c["_out"] = line
+        cases.append(c)
+    return cases, ex.truncated
+
+
+def div_branch(case, out):
+    end = out.split(" end=")[1].split(" ")[0] if " end=" in out else "?"
+    free = "free" if any(f for _, f in case["outs"]) else "nofree"
+    return f"{'lazy' if case['lazy'] else 'eager'}/{len(case['outs'])}out/{free}/{div_classify(case)}/{end}"
 
 
 # ----------------------------------------------------------------------------- the check
@@ -646,24 +873,41 @@ def run(ctx):
     _correspond(ctx, "mailbox/kill", batch("kill", *ctx.pick((300, 1500, 10), (6000, 10000, 120))))
     _correspond(ctx, "mailbox/malformed", batch("malformed", *ctx.pick((200, 600, 5), (2000, 4000, 50))))
 
-    # 3. divide_outputs feeding several mailboxes (oracle only; the network model is C06's)
-    if ctx.thorough:
-        dcases, outs = [], {}
+    # 3. divide_outputs feeding several mailboxes (Model/Divider.lean, driver op c05.div)
+    div_rule = "non-trivial = at least one dict and at least two distinct threads in the schedule"
+    dkw = dict(nontrivial=nontrivial, rule=div_rule, branch=div_branch, in_hyp=lambda c, o: div_classify(c) == "clean")
+
+    def dcorr(name, cases, **kw):
+        outs = {id(c): c.pop("_out") for c in cases}
+        ctx.correspond(name, cases, lambda c: outs[id(c)], div_op_line, div_oracle, **dkw, **kw)
+
+    dsys, dtrunc = [], 0
+    t2 = time.time()
+    ddl = t2 + ctx.pick(60, 300)
+    with pinned():
+        for base, bound in div_small_configs(quick):
+            cs, t = div_explore(base, bound, ctx.pick(1500, 15000), ddl)
+            dsys += cs
+            dtrunc += int(t)
+    ctx.note(f"divide_outputs systematic: {len(dsys)} schedules of {len(div_small_configs(quick))} configurations, "
+             f"{dtrunc} truncated, {time.time() - t2:.0f}s")
+    dcorr("divide/systematic", dsys, exhaustive=(dtrunc == 0))
+
+    def dbatch(kind, n_min, n_max, budget):
+        cases = []
+        t1 = time.time()
         with pinned():
-            for _ in range(3000):
-                nmb = rng.randint(2, 3)
-                lazy = rng.random() < 0.5
-                c = dict(nmb=nmb, nmsg=rng.randint(0, 4), lazy=int(lazy), cap=rng.randint(1, 3),
-                         readers=[rng.randint(1, 2) for _ in range(nmb)],
-                         free=([f"o{nmb - 1}"] if lazy and rng.random() < 0.3 else []), seed=rng.getrandbits(48),
-                         stick=rng.choice([0, 0.5, 0.8]))
-                out, tr = run_divide(c, S.RandomStrategy(random.Random(c["seed"]), stick=c["stick"]))
-                outs[len(dcases)] = out
-                c["i"] = len(dcases)
-                dcases.append(c)
-        ctx.check_oracle("divide_outputs", dcases, lambda c: outs[c["i"]], oracle_divide,
-                         rule="divide_outputs -> 2..3 real mailboxes, random schedules; oracle only",
-                         branch=lambda c, o: f"{'lazy' if c['lazy'] else 'eager'}/{c['nmb']}mb/{'free' if c['free'] else 'nofree'}")
+            while len(cases) < n_max and (len(cases) < n_min or time.time() - t1 < budget):
+                c = div_random_config(rng, kind)
+                seed = rng.getrandbits(48)
+                c["strat"] = dict(kind="random", seed=seed, stick=rng.choice([0, 0.5, 0.8])) if rng.random() < 0.7 \
+                    else dict(kind="pct", seed=seed, depth=rng.randint(1, 4), est=60)
+                c["_out"] = div_execute(c)
+                cases.append(c)
+        return cases
+    dcorr("divide/random", dbatch("clean", *ctx.pick((400, 1500, 10), (3000, 6000, 90))))
+    dcorr("divide/kill", dbatch("kill", *ctx.pick((200, 600, 5), (1500, 3000, 40))))
+    dcorr("divide/malformed", dbatch("malformed", *ctx.pick((60, 200, 2), (400, 800, 10))))
 
 
 def search(ctx):
@@ -686,9 +930,10 @@ def replay(ctx, body):
         return f"obligation {body['component']} has no input to replay (no-failing-input-found); re-run the check"
     case = dict(body["case"]["case"])
     if body["component"].startswith("divide"):
-        out, _ = run_divide(case, S.RandomStrategy(random.Random(case["seed"]), stick=case.get("stick", 0)))
+        case.pop("_out", None)
+        out = div_execute(case)
         print("implementation output:", out)
-        return oracle_divide(case, out)
+        return div_oracle(case, out)
     case.pop("_out", None)
     out = execute(case)
     print("implementation output:", out)
